@@ -261,7 +261,8 @@ def write_evidence(pid, tier, seed, mod, plan, agg, conf, status, replayed, wall
                      "infeasible_assumption": a["infeasible"], "aborted": a["aborted"],
                      "exception_paths": a["exception"], "solver_queries": a["queries"],
                      "solver_seconds": round(a["solver_s"], 3), "max_decisions": a["max_depth"],
-                     "unknown_branches": a["unknown_branches"], "obligations": o}
+                     "unknown_branches": a["unknown_branches"], "obligations": o,
+                     "hung_items_retried": a.get("retried", 0)}
     samples = []
     for a in agg.values():
         samples.extend(a["samples"][:2])
